@@ -14,11 +14,12 @@ from sketchnu.heavyhitters import HeavyHitters
 WIDTHS = [1, 1, 1, 2, 2, 3, 3, 4, 8, 16]
 
 CFG = st.builds(
-    lambda w, d, mkl, phi: {"kind": "hh", "width": w, "depth": d, "max_key_len": mkl, "phi": phi},
-    st.sampled_from(WIDTHS),
+    lambda w, d, mkl, phi, at: {"kind": "hh", "width": w, "depth": d, "max_key_len": mkl, "phi": phi, **({"argtype": at} if at else {})},
+    st.sampled_from(WIDTHS + [70, 100]),
     st.integers(1, 4),
     st.sampled_from([1, 2, 2, 3, 4, 4, 8, 16]),
     st.sampled_from([None, None, None, 0.01, 0.3, 0.5]),
+    st.sampled_from([None, None, None, "u8", "i8", "u32", "i64", "u64", "i32"]),
 )
 
 ALPHA = [0x00, 0x00, 0x61, 0x62, 0xFF]
